@@ -8,6 +8,7 @@ import Rl.Editor
 import Rl.Props.C09
 import Rl.Spec.OracleSearch
 import Rl.Lemmas.EditorLoops
+import Rl.Lemmas.SearchLoopInv
 open Rl Rl.Spec
 
 /-- Whenever the model's search step succeeds, the line it shows is a stored entry that really
@@ -66,3 +67,397 @@ theorem C08_abort_restores (S : Segmenter) (U : UData) (cfg : EdCfg) (s s' : Ed)
     · simp only [wp_bind, wp_changesBegin, wp_getLine]
       exact searchLoop_abort S U cfg _ _ _ hp fuel _ _ _ _ _ hg
   exact wp_ok hw hrun rfl
+
+/-! ## The model's search loop as a run of the search automaton
+
+`Rl.SearchVars` (Rl/Lemmas/SearchLoopInv.lean) packs the loop variables of `searchLoop` (search text
+`sb`, index `hi`, direction `d`, success flag `succ`) with the text `buf` and cursor `pos` shown;
+`Rl.searchKey cfg c cmd` is the effect of one decoded command (`none` = not a search key) and
+`Rl.searchRun` folds it over a key sequence.  `searchLoop_refines` proves, with the `wp` calculus and
+by induction on the loop, that the model's `searchLoop` performs exactly such a run. -/
+
+/-- loop variables on entry to `reverse_incremental_search`: empty text, newest entry, reverse,
+    flag set, the line as it was -/
+def C08_init (cfg : EdCfg) (s : Ed) : SearchVars :=
+  { sb := [], hi := cfg.hist.length - 1, d := .reverse, succ := true, buf := s.line.buf, pos := s.line.pos }
+
+/-- the shown-entry invariant: the index is valid; the text shown is the original line or a stored
+    entry; and if the success flag is set, then either nothing has been found yet (empty search text,
+    original line and cursor) or the text shown is the entry at the current index and the search text
+    occurs in it at the cursor offset. -/
+def C08_Inv (cfg : EdCfg) (backup : Text) (backupPos : Nat) (c : SearchVars) : Prop :=
+  c.hi < cfg.hist.length ∧
+  ((c.buf = backup ∧ c.pos = backupPos) ∨ ∃ i : Nat, cfg.hist[i]? = some c.buf) ∧
+  (c.succ = true →
+    (c.sb = [] ∧ c.buf = backup ∧ c.pos = backupPos) ∨
+    (cfg.hist[c.hi]? = some c.buf ∧ OccursAt c.sb c.buf c.pos))
+
+/-- an occurrence of a text is an occurrence (same offset) of the text without its last character -/
+theorem C08_occursAt_dropLast {t e : Text} {off : Nat} (h : OccursAt t e off) : OccursAt t.dropLast e off := by
+  obtain ⟨a, b, rfl, rfl⟩ := h
+  have ht : t = t.dropLast ++ t.drop (t.length - 1) := by
+    rw [List.dropLast_eq_take]; exact (List.take_append_drop _ _).symm
+  refine ⟨a, t.drop (t.length - 1) ++ b, ?_, rfl⟩
+  conv => lhs; rw [ht]
+  simp [List.append_assoc]
+
+/-- one history search issued from a valid index keeps the shown-entry invariant (success: the hit is
+    shown and indexed; failure: text and cursor stay, the flag drops) -/
+theorem C08_inv_searchTry (cfg : EdCfg) (backup : Text) (backupPos : Nat) (c : SearchVars) (sb : Text) (hi : Nat) (d : Dir)
+    (hc : C08_Inv cfg backup backupPos c) (hhi : hi < cfg.hist.length) :
+    C08_Inv cfg backup backupPos (searchTry cfg c sb hi d) := by
+  unfold searchTry
+  cases hsr : (memHist cfg).search sb hi d with
+  | none => exact ⟨hhi, hc.2.1, fun h => by cases h⟩
+  | some r =>
+    obtain ⟨i, e, off⟩ := r
+    obtain ⟨h1, h2, _⟩ := C08_success_sound cfg sb hi d i e off hsr
+    have hi' : i < cfg.hist.length := by
+      obtain ⟨hlt, _⟩ := List.getElem?_eq_some_iff.mp h1; exact hlt
+    exact ⟨hi', Or.inr ⟨i, h1⟩, fun _ => Or.inr ⟨h1, h2⟩⟩
+
+/-- one search key keeps the shown-entry invariant -/
+theorem C08_inv_step (cfg : EdCfg) (backup : Text) (backupPos : Nat) (c c' : SearchVars) (k : Cmd)
+    (hc : C08_Inv cfg backup backupPos c) (hk : searchKey cfg c k = some c') :
+    C08_Inv cfg backup backupPos c' := by
+  unfold searchKey at hk
+  split at hk
+  · cases hk; exact C08_inv_searchTry cfg backup backupPos c _ _ _ hc hc.1
+  · cases hk
+    refine ⟨hc.1, hc.2.1, fun h => ?_⟩
+    rcases hc.2.2 h with ⟨h1, h2⟩ | ⟨h1, h2⟩
+    · exact Or.inl ⟨by show c.sb.dropLast = []; rw [h1]; rfl, h2⟩
+    · exact Or.inr ⟨h1, C08_occursAt_dropLast h2⟩
+  · cases hk
+    split
+    · exact C08_inv_searchTry cfg backup backupPos c _ _ _ hc (by have := hc.1; omega)
+    · exact ⟨hc.1, hc.2.1, fun h => by cases h⟩
+  · cases hk
+    split
+    · rename_i hlt; exact C08_inv_searchTry cfg backup backupPos c _ _ _ hc hlt
+    · exact ⟨hc.1, hc.2.1, fun h => by cases h⟩
+  · cases hk
+
+/-- **Shown-entry invariant, every iteration** (clause 1).  For a non-empty history, after *every*
+    sequence of search keys (typed characters, backspaces, C-r, C-s in any order) the loop variables
+    satisfy `C08_Inv`: in particular, whenever the success flag is set and the search text is
+    non-empty, the text shown is `cfg.hist[hi]` for the loop's current index and the search text occurs
+    in it at the cursor offset. -/
+theorem C08_shown_entry_invariant (cfg : EdCfg) (s : Ed) (hne : cfg.hist ≠ []) (keys : List Cmd) (c : SearchVars)
+    (hrun : searchRun cfg (C08_init cfg s) keys = some c) :
+    C08_Inv cfg s.line.buf s.line.pos c ∧
+    (c.succ = true → c.sb ≠ [] → cfg.hist[c.hi]? = some c.buf ∧ OccursAt c.sb c.buf c.pos) := by
+  have h0 : C08_Inv cfg s.line.buf s.line.pos (C08_init cfg s) := by
+    refine ⟨?_, Or.inl ⟨rfl, rfl⟩, fun _ => Or.inl ⟨rfl, rfl, rfl⟩⟩
+    show cfg.hist.length - 1 < cfg.hist.length
+    have : 0 < cfg.hist.length := List.length_pos_iff.mpr hne
+    omega
+  have hall : ∀ (keys : List Cmd) (c0 c : SearchVars), C08_Inv cfg s.line.buf s.line.pos c0 →
+      searchRun cfg c0 keys = some c → C08_Inv cfg s.line.buf s.line.pos c := by
+    intro keys
+    induction keys with
+    | nil => intro c0 c h0 hr; simp only [searchRun] at hr; cases hr; exact h0
+    | cons k ks ih =>
+      intro c0 c h0 hr
+      simp only [searchRun] at hr
+      cases hk : searchKey cfg c0 k with
+      | none => rw [hk] at hr; cases hr
+      | some c1 => rw [hk] at hr; exact ih c1 c (C08_inv_step cfg _ _ c0 c1 k h0 hk) hr
+  have hinv := hall keys _ c h0 hrun
+  refine ⟨hinv, fun hs hsb => ?_⟩
+  rcases hinv.2.2 hs with ⟨h1, _⟩ | h
+  · exact absurd h1 hsb
+  · exact h
+
+/-- **The loop is a run of the automaton** (tie between `reverseIncrementalSearch` and the
+    history-level facts).  Whenever the model's incremental search hands a command back, then — on a
+    growable line buffer — the history is non-empty and the commands the loop decoded form a run
+    `keys` of the search automaton from the initial loop variables to some `cf`; the command handed
+    back is not a search key and not `abort`; and the line and cursor handed back are exactly the
+    text and cursor shown in `cf` (the terminating command itself changes nothing). -/
+theorem C08_loop_is_run (S : Segmenter) (U : UData) (cfg : EdCfg) (s s' : Ed) (fuel : Nat) (cmd : Cmd)
+    (hrun : reverseIncrementalSearch S U cfg fuel s = .ok (some cmd, s'))
+    (hg : s.line.canGrow = true) :
+    cfg.hist ≠ [] ∧
+    ∃ keys cf, searchRun cfg (C08_init cfg s) keys = some cf ∧ searchKey cfg cf cmd = none ∧
+      cmd ≠ .abort ∧ s'.line.buf = cf.buf ∧ s'.line.pos = cf.pos ∧ s'.line.canGrow = true := by
+  have hw : wp (reverseIncrementalSearch S U cfg fuel)
+      (fun r s' => ∀ cmd, r = some cmd → cfg.hist ≠ [] ∧
+        ∃ keys cf, searchRun cfg (C08_init cfg s) keys = some cf ∧ searchKey cfg cf cmd = none ∧
+          cmd ≠ .abort ∧ s'.line.buf = cf.buf ∧ s'.line.pos = cf.pos ∧ s'.line.canGrow = true)
+      (fun _ _ => True) s := by
+    unfold reverseIncrementalSearch
+    split
+    · simp only [wp_pure]; intro cmd h; cases h
+    · rename_i hne
+      simp only [wp_bind, wp_changesBegin, wp_getLine]
+      refine wp_mono (searchLoop_refines S U cfg _ _ fuel _ (C08_init cfg s) _ hg rfl rfl)
+        (fun r s' h cmd hr => ⟨?_, h cmd hr⟩) (fun _ _ h => h)
+      intro h0; rw [h0] at hne; exact hne rfl
+  exact wp_ok hw hrun cmd rfl
+
+/-- **Exit with a command hands back the shown entry** (clause 2, combined with clause 1).  Whenever
+    the incremental search ends with a command `cmd`, the loop variables `cf` at that moment (reached
+    from the initial ones by the decoded search keys) satisfy the shown-entry invariant and the line
+    handed back with `cmd` is the text shown: if the last search step succeeded (flag set, non-empty
+    search text) it is the stored entry `cfg.hist[cf.hi]` with the cursor at an occurrence of the
+    search text; in every case it is either the original line with the original cursor or some stored
+    entry (the last one shown).  Hypothesis: growable line buffer. -/
+theorem C08_exit_hands_back_shown_entry (S : Segmenter) (U : UData) (cfg : EdCfg) (s s' : Ed) (fuel : Nat) (cmd : Cmd)
+    (hrun : reverseIncrementalSearch S U cfg fuel s = .ok (some cmd, s'))
+    (hg : s.line.canGrow = true) :
+    ∃ keys cf, searchRun cfg (C08_init cfg s) keys = some cf ∧ searchKey cfg cf cmd = none ∧ cmd ≠ .abort ∧
+      C08_Inv cfg s.line.buf s.line.pos cf ∧
+      (cf.succ = true → cf.sb ≠ [] →
+        cfg.hist[cf.hi]? = some s'.line.buf ∧ OccursAt cf.sb s'.line.buf s'.line.pos) ∧
+      ((s'.line.buf = s.line.buf ∧ s'.line.pos = s.line.pos) ∨ ∃ i : Nat, cfg.hist[i]? = some s'.line.buf) := by
+  obtain ⟨hne, keys, cf, h1, h2, h3, h4, h5, _⟩ := C08_loop_is_run S U cfg s s' fuel cmd hrun hg
+  obtain ⟨hinv, hshown⟩ := C08_shown_entry_invariant cfg s hne keys cf h1
+  refine ⟨keys, cf, h1, h2, h3, hinv, ?_, ?_⟩
+  · rw [h4, h5]; exact hshown
+  · rw [h4, h5]; exact hinv.2.1
+
+/-- **The command that ends the search is then executed normally**: the dispatcher `preCmds` feeds
+    the command handed back by the search to itself again, on the state the search left, exactly as
+    if it had been typed there. -/
+theorem C08_exit_command_dispatched (S : Segmenter) (U : UData) (cfg : EdCfg) (s s' : Ed) (fuel : Nat) (cmd : Cmd)
+    (hrun : reverseIncrementalSearch S U cfg fuel s = .ok (some cmd, s')) :
+    preCmds S U cfg (fuel + 1) .reverseSearchHistory s = preCmds S U cfg fuel cmd s' := by
+  have h1 : (Cmd.reverseSearchHistory == Cmd.complete && cfg.hasHelper) = false := by
+    have : (Cmd.reverseSearchHistory == Cmd.complete) = false := by decide
+    rw [this]; rfl
+  have h2 : (Cmd.reverseSearchHistory == Cmd.reverseSearchHistory) = true := by decide
+  conv => lhs; unfold preCmds
+  simp only [h1, h2, if_true, Bool.false_eq_true, if_false, EM.bind_apply, hrun]
+
+/-- What one history search issued by the loop (`searchTry`, from index `hi` in direction `d` with
+    text `sb`) does to the loop variables.  On success the new index holds the entry now shown, the
+    text occurs at the cursor, the new index lies on the requested side of `hi` (inclusive) and no
+    entry between `hi` and it contains the text: the NEAREST match, none skipped.  On failure text,
+    cursor and index stay and (for a non-empty text) no entry on that side of `hi` contains the text. -/
+theorem C08_searchTry_spec (cfg : EdCfg) (c : SearchVars) (sb : Text) (hi : Nat) (d : Dir) (hhi : hi < cfg.hist.length) :
+    (searchTry cfg c sb hi d).sb = sb ∧ (searchTry cfg c sb hi d).d = d ∧
+    ((searchTry cfg c sb hi d).succ = true →
+      cfg.hist[(searchTry cfg c sb hi d).hi]? = some (searchTry cfg c sb hi d).buf ∧
+      OccursAt sb (searchTry cfg c sb hi d).buf (searchTry cfg c sb hi d).pos ∧
+      (d = .forward → hi ≤ (searchTry cfg c sb hi d).hi ∧
+        ∀ (j : Nat) (e' : Text), hi ≤ j → j < (searchTry cfg c sb hi d).hi → cfg.hist[j]? = some e' → ∀ o, ¬ OccursAt sb e' o) ∧
+      (d = .reverse → (searchTry cfg c sb hi d).hi ≤ hi ∧
+        ∀ (j : Nat) (e' : Text), (searchTry cfg c sb hi d).hi < j → j ≤ hi → cfg.hist[j]? = some e' → ∀ o, ¬ OccursAt sb e' o)) ∧
+    ((searchTry cfg c sb hi d).succ = false →
+      (searchTry cfg c sb hi d).buf = c.buf ∧ (searchTry cfg c sb hi d).pos = c.pos ∧ (searchTry cfg c sb hi d).hi = hi ∧
+      (sb ≠ [] →
+        (d = .forward → ∀ (j : Nat) (e' : Text), hi ≤ j → cfg.hist[j]? = some e' → ∀ o, ¬ OccursAt sb e' o) ∧
+        (d = .reverse → ∀ (j : Nat) (e' : Text), j ≤ hi → cfg.hist[j]? = some e' → ∀ o, ¬ OccursAt sb e' o))) := by
+  unfold searchTry
+  cases hsr : (memHist cfg).search sb hi d with
+  | none =>
+    refine ⟨rfl, rfl, (fun h => by cases h), fun _ => ⟨rfl, rfl, rfl, fun hsb => ?_⟩⟩
+    exact C08_failure_complete cfg sb hi d hsr hsb hhi
+  | some r =>
+    obtain ⟨i, e, off⟩ := r
+    exact ⟨rfl, rfl, fun _ => C08_success_sound cfg sb hi d i e off hsr, fun h => by cases h⟩
+
+/-- **Repeat = next nearest, reverse** (clause 3).  A C-r while searching keeps the search text, sets
+    the direction to reverse and searches from the index *one below* the current one: on success the
+    entry now shown lies strictly below the previous index, contains the text at the cursor, and no
+    entry strictly between contains the text (the next nearest match, none skipped); on failure text
+    and cursor stay and (non-empty text) no entry strictly below the previous index contains it. -/
+theorem C08_repeat_reverse (cfg : EdCfg) (c c' : SearchVars) (hhi : c.hi < cfg.hist.length)
+    (hk : searchKey cfg c .reverseSearchHistory = some c') :
+    c'.sb = c.sb ∧ c'.d = .reverse ∧
+    (c'.succ = true → c'.hi < c.hi ∧ cfg.hist[c'.hi]? = some c'.buf ∧ OccursAt c.sb c'.buf c'.pos ∧
+      ∀ (j : Nat) (e' : Text), c'.hi < j → j < c.hi → cfg.hist[j]? = some e' → ∀ o, ¬ OccursAt c.sb e' o) ∧
+    (c'.succ = false → c'.buf = c.buf ∧ c'.pos = c.pos ∧
+      (c.sb ≠ [] → ∀ (j : Nat) (e' : Text), j < c.hi → cfg.hist[j]? = some e' → ∀ o, ¬ OccursAt c.sb e' o)) := by
+  simp only [searchKey, Option.some.injEq] at hk
+  subst hk
+  split
+  · rename_i hpos
+    obtain ⟨h1, h2, h3, h4⟩ := C08_searchTry_spec cfg c c.sb (c.hi - 1) .reverse (by omega)
+    refine ⟨h1, h2, fun hs => ?_, fun hs => ?_⟩
+    · obtain ⟨a, b, _, hr⟩ := h3 hs
+      obtain ⟨r1, r2⟩ := hr rfl
+      exact ⟨by omega, a, b, fun j e' hj1 hj2 => r2 j e' hj1 (by omega)⟩
+    · obtain ⟨a, b, _, hn⟩ := h4 hs
+      exact ⟨a, b, fun hsb j e' hj => (hn hsb).2 rfl j e' (by omega)⟩
+  · rename_i hpos
+    refine ⟨rfl, rfl, (fun hs => by cases hs), fun _ => ⟨rfl, rfl, fun _ j e' hj => ?_⟩⟩
+    omega
+
+/-- **Repeat = next nearest, forward** (clause 3, C-s).  Symmetric: the search starts one above the
+    current index; on success the shown entry lies strictly above with no match strictly between, on
+    failure nothing strictly above contains the (non-empty) text. -/
+theorem C08_repeat_forward (cfg : EdCfg) (c c' : SearchVars)
+    (hk : searchKey cfg c .forwardSearchHistory = some c') :
+    c'.sb = c.sb ∧ c'.d = .forward ∧
+    (c'.succ = true → c.hi < c'.hi ∧ cfg.hist[c'.hi]? = some c'.buf ∧ OccursAt c.sb c'.buf c'.pos ∧
+      ∀ (j : Nat) (e' : Text), c.hi < j → j < c'.hi → cfg.hist[j]? = some e' → ∀ o, ¬ OccursAt c.sb e' o) ∧
+    (c'.succ = false → c'.buf = c.buf ∧ c'.pos = c.pos ∧
+      (c.sb ≠ [] → ∀ (j : Nat) (e' : Text), c.hi < j → cfg.hist[j]? = some e' → ∀ o, ¬ OccursAt c.sb e' o)) := by
+  simp only [searchKey, Option.some.injEq] at hk
+  subst hk
+  split
+  · rename_i hlt
+    obtain ⟨h1, h2, h3, h4⟩ := C08_searchTry_spec cfg c c.sb (c.hi + 1) .forward hlt
+    refine ⟨h1, h2, fun hs => ?_, fun hs => ?_⟩
+    · obtain ⟨a, b, hf, _⟩ := h3 hs
+      obtain ⟨r1, r2⟩ := hf rfl
+      exact ⟨by omega, a, b, fun j e' hj1 hj2 => r2 j e' (by omega) hj2⟩
+    · obtain ⟨a, b, _, hn⟩ := h4 hs
+      exact ⟨a, b, fun hsb j e' hj => (hn hsb).1 rfl j e' (by omega)⟩
+  · rename_i hlt
+    refine ⟨rfl, rfl, (fun hs => by cases hs), fun _ => ⟨rfl, rfl, fun _ j e' hj he' => ?_⟩⟩
+    obtain ⟨hlt', _⟩ := List.getElem?_eq_some_iff.mp he'
+    omega
+
+/-- **Typed character / backspace.**  A typed character appends to the search text and searches from
+    the *current* index (inclusive) in the current direction (`C08_searchTry_spec` gives nearest /
+    none-skipped); a backspace drops the last character of the text and changes nothing else (no new
+    search: index, flag, text shown and cursor stay). -/
+theorem C08_typed_and_backspace (cfg : EdCfg) (c : SearchVars) (n : Nat) (ch : Char) :
+    searchKey cfg c (.selfInsert n ch) = some (searchTry cfg c (c.sb ++ [ch]) c.hi c.d) ∧
+    searchKey cfg c (.kill (.backwardChar n)) = some { c with sb := c.sb.dropLast } := ⟨rfl, rfl⟩
+
+/-- **Repeat after a success = next nearest from the entry shown.**  If, after any sequence of
+    search keys, the flag is set with a non-empty text (so `cfg.hist[c.hi]` is the entry on display)
+    and a further C-r (resp. C-s) succeeds, then the new entry lies strictly below (resp. above) the
+    one on display, contains the text at the cursor, and no entry strictly between the two contains
+    the text. -/
+theorem C08_repeat_after_success (cfg : EdCfg) (s : Ed) (hne : cfg.hist ≠ []) (keys : List Cmd) (c c' : SearchVars)
+    (hrun : searchRun cfg (C08_init cfg s) keys = some c) (hs : c.succ = true) (hsb : c.sb ≠ [])
+    (hs' : c'.succ = true) :
+    cfg.hist[c.hi]? = some c.buf ∧
+    (searchKey cfg c .reverseSearchHistory = some c' →
+      c'.hi < c.hi ∧ cfg.hist[c'.hi]? = some c'.buf ∧ OccursAt c.sb c'.buf c'.pos ∧
+      ∀ (j : Nat) (e' : Text), c'.hi < j → j < c.hi → cfg.hist[j]? = some e' → ∀ o, ¬ OccursAt c.sb e' o) ∧
+    (searchKey cfg c .forwardSearchHistory = some c' →
+      c.hi < c'.hi ∧ cfg.hist[c'.hi]? = some c'.buf ∧ OccursAt c.sb c'.buf c'.pos ∧
+      ∀ (j : Nat) (e' : Text), c.hi < j → j < c'.hi → cfg.hist[j]? = some e' → ∀ o, ¬ OccursAt c.sb e' o) := by
+  obtain ⟨hinv, hshown⟩ := C08_shown_entry_invariant cfg s hne keys c hrun
+  exact ⟨(hshown hs hsb).1,
+    fun hk => (C08_repeat_reverse cfg c c' hinv.1 hk).2.2.1 hs',
+    fun hk => (C08_repeat_forward cfg c c' hk).2.2.1 hs'⟩
+
+/-! ### Finding: a FAILED repeat still moves the index (no match is skipped only relative to the index)
+
+`src/lib.rs` decrements/increments `history_idx` *before* the search of a repeated C-r / C-s and does
+not put it back when that search fails.  So after failed repeats the loop's index is no longer the
+index of the entry on display, and once the text is shortened with Backspace the next C-r searches
+from the drifted index: entries between the entry on display and the drifted index are skipped even
+if they contain the (shortened) text.  Replay on the real crate (harness request, emacs mode, history
+"a", "xa", "ab"; keys C-r a b C-r Backspace C-r Enter):
+`ed08 e 20 - 97;120,97;97,98 - - - - 12 61 62 12 7f 12 0d` → the display goes "ab" → "a" and the
+line returned is "a"; "xa" (nearer, contains "a") is never shown.  The model agrees. -/
+
+/-- the reading of "repeat = next nearest" relative to the *entry on display* whatever the flag: no
+    entry strictly between the newly shown entry and (an index of) the text shown before the key
+    contains the search text.  FALSE — see `C08_repeat_from_shown_false`; true when the flag is set
+    (`C08_repeat_after_success`). -/
+def C08_repeat_from_shown_statement : Prop :=
+  ∀ (cfg : EdCfg) (s : Ed) (keys : List Cmd) (c c' : SearchVars), cfg.hist ≠ [] →
+    searchRun cfg (C08_init cfg s) keys = some c →
+    searchKey cfg c .reverseSearchHistory = some c' → c'.succ = true →
+    ∀ (i : Nat), cfg.hist[i]? = some c.buf →
+      ∀ (j : Nat) (e' : Text), c'.hi < j → j < i → cfg.hist[j]? = some e' → ∀ o, ¬ OccursAt c.sb e' o
+
+/-- witness data: one cluster per character, width 1, emacs mode, history "a", "xa", "ab" -/
+def C08_wit_seg : Segmenter where
+  seg t := t.map fun c => [c]
+  flatten_eq t := by induction t with
+    | nil => rfl
+    | cons c t ih => simp [ih]
+  ne_nil t g h := by
+    simp only [List.mem_map] at h
+    obtain ⟨c, _, rfl⟩ := h
+    exact List.cons_ne_nil _ _
+
+def C08_wit_udata : UData :=
+  { alnum := Char.isAlphanum, ws := Char.isWhitespace, upper := fun c => [c], lower := fun c => [c],
+    width := List.length }
+
+def C08_wit_cfg : EdCfg := { vi := false, hist := [['a'], ['x', 'a'], ['a', 'b']] }
+
+/-- line "q", cursor 1, growable buffer; the pending input is a parameter -/
+def C08_wit_state (future : List (List UInt8)) : Ed :=
+  { line := { buf := ['q'], pos := 1, cap := 8, canGrow := true },
+    saved := { buf := [], pos := 0, cap := 8, canGrow := true },
+    changes := Changeset.new, ring := KillRing.new 60, histIdx := 3,
+    inp := {}, hint := none, highlightChar := false, defaultPrompt := true,
+    input := { buf := [], avail := [], future := future }, obs := [], validatorCalls := [] }
+
+/-- the automaton on the finding's keys `a b C-r Backspace`: the entry on display is still "ab"
+    (index 2) but the index has moved to 1 and the flag is down; the next C-r shows "a" (index 0) -/
+theorem C08_failed_repeat_moves_index :
+    searchRun C08_wit_cfg (C08_init C08_wit_cfg (C08_wit_state []))
+      [.selfInsert 1 'a', .selfInsert 1 'b', .reverseSearchHistory, .kill (.backwardChar 1)] =
+      some { sb := ['a'], hi := 1, d := .reverse, succ := false, buf := ['a', 'b'], pos := 0 } ∧
+    searchKey C08_wit_cfg { sb := ['a'], hi := 1, d := .reverse, succ := false, buf := ['a', 'b'], pos := 0 }
+      .reverseSearchHistory =
+      some { sb := ['a'], hi := 0, d := .reverse, succ := true, buf := ['a'], pos := 0 } := by
+  decide +kernel
+
+/-- **`C08_repeat_from_shown_statement` is false** (model and real code): on the witness the C-r after
+    `a b C-r Backspace` goes from "ab" (index 2) to "a" (index 0) although "xa" (index 1) contains "a". -/
+theorem C08_repeat_from_shown_false : ¬ C08_repeat_from_shown_statement := by
+  intro h
+  obtain ⟨h1, h2⟩ := C08_failed_repeat_moves_index
+  exact h C08_wit_cfg (C08_wit_state []) _ _ _ (by decide) h1 h2 rfl 2 rfl 1 ['x', 'a'] (by decide) (by decide) rfl 1
+    ⟨['x'], [], rfl, rfl⟩
+
+/-- the finding replayed through the MODEL's loop (keys a b C-r Backspace C-r Enter): Enter is handed
+    back with the line "a", cursor 0 -/
+theorem C08_failed_repeat_replay_model :
+    (reverseIncrementalSearch C08_wit_seg C08_wit_udata C08_wit_cfg 20
+        (C08_wit_state [[0x61], [0x62], [0x12], [0x7f], [0x12], [0x0d]])).toOption.map
+      (fun r => (r.1, r.2.line.buf, r.2.line.pos)) =
+    some (some (.acceptOrInsertLine true), ['a'], 0) := by decide +kernel
+
+/-- non-vacuity of `C08_loop_is_run` / `C08_exit_hands_back_shown_entry`: a run of the model's loop
+    that hands a command back on a growable buffer (keys a C-r Enter: "ab" then "xa", cursor 1) -/
+example :
+    (reverseIncrementalSearch C08_wit_seg C08_wit_udata C08_wit_cfg 20
+        (C08_wit_state [[0x61], [0x12], [0x0d]])).toOption.map
+      (fun r => (r.1, r.2.line.buf, r.2.line.pos)) =
+    some (some (.acceptOrInsertLine true), ['x', 'a'], 1) ∧
+    (C08_wit_state [[0x61], [0x12], [0x0d]]).line.canGrow = true := by decide +kernel
+
+/-- non-vacuity of `C08_shown_entry_invariant`, `C08_repeat_after_success`: a run with the flag set,
+    a non-empty text, and a successful repeat -/
+example :
+    searchRun C08_wit_cfg (C08_init C08_wit_cfg (C08_wit_state [])) [.selfInsert 1 'a'] =
+      some { sb := ['a'], hi := 2, d := .reverse, succ := true, buf := ['a', 'b'], pos := 0 } ∧
+    searchKey C08_wit_cfg { sb := ['a'], hi := 2, d := .reverse, succ := true, buf := ['a', 'b'], pos := 0 }
+      .reverseSearchHistory =
+      some { sb := ['a'], hi := 1, d := .reverse, succ := true, buf := ['x', 'a'], pos := 1 } ∧
+    C08_wit_cfg.hist ≠ [] := by decide +kernel
+
+/-- the finding as a whole read of the model (keys C-r a b C-r Backspace C-r Enter on an empty line):
+    the line returned is "a" — what the real crate returns for the harness request quoted above -/
+example :
+    (readline C08_wit_seg C08_wit_udata C08_wit_cfg (KillRing.new 60) [] []
+      { buf := [], avail := [], future := [[0x12], [0x61], [0x62], [0x12], [0x7f], [0x12], [0x0d]] }).1
+      = .line ['a'] := by decide +kernel
+
+/-- **What an iteration displays** (the link between the success flag and what the user sees).  Every
+    iteration of the model's loop with variables `c`, on a state whose line is the text and cursor of
+    `c`, *starts* with `refresh_prompt_and_line` of the search prompt — "(reverse-i-search)`text': " iff
+    the flag is set, "(failed reverse-i-search)`text': " otherwise — and that call pushes exactly one
+    record onto the render log: a refresh with this prompt showing `c.buf` with the cursor at `c.pos`;
+    the line is untouched.  With `C08_shown_entry_invariant`: whenever the prompt displayed reports
+    success for a non-empty text, the text displayed is the stored entry `cfg.hist[c.hi]` and the
+    cursor is at an occurrence of the search text.  (That the iterations of a run are exactly at the
+    automaton's reachable `c` is the induction of `searchLoop_refines`.) -/
+theorem C08_iteration_display (S : Segmenter) (U : UData) (cfg : EdCfg) (mark : Nat) (backup : Text) (backupPos fuel : Nat)
+    (c : SearchVars) (s : Ed) (hb : s.line.buf = c.buf) (hp : s.line.pos = c.pos) :
+    (∃ k : Unit → EM (Option Cmd),
+      searchLoop S U cfg mark backup backupPos (fuel + 1) c.sb c.hi c.d c.succ =
+        (refreshPromptAndLine S U cfg (searchPrompt c.succ c.sb) >>= k)) ∧
+    wp (refreshPromptAndLine S U cfg (searchPrompt c.succ c.sb))
+      (fun _ s' => s'.line = s.line ∧
+        ∃ h, s'.render = .refresh (some (searchPrompt c.succ c.sb)) c.buf c.pos h :: s.render)
+      (fun _ _ => True) s := by
+  refine ⟨searchLoop_starts_with_display S U cfg mark backup backupPos fuel c.sb c.hi c.d c.succ, ?_⟩
+  have := refreshPromptAndLine_display S U cfg (searchPrompt c.succ c.sb) s
+  rw [hb, hp] at this
+  exact this
